@@ -2,8 +2,8 @@
 
     PV:  None | True/False | {"i":n} | {"f":[m,e]} | {"s":str} | {"l":[..]} | {"t":[..]} | {"S":[..]} | {"q":[..]}
          | {"d":[[key,v]..]} | {"D":[cls,[[key,v]..]]} | {"st":v} | {"e":[cls,name]} | {"dt":iso}
-         | {"a":[uid,name,flow_uid|None,status,ctx,args,scope]} | {"p":1} | {"r":id} | {"c":1} | {"o":cls}
-    key: None | True/False | {"i":n} | {"s":str} | {"T":1}
+         | {"a":[uid,name,flow_uid|None,status,ctx,args,scope]} | {"p":1} | {"r":[pattern,flags]} | {"c":1} | {"o":cls}
+    key: None | True/False | {"i":n} | {"s":str} | {"T":[atom..]}     atom: None | True/False | {"i":n} | {"s":str}
     case-only: {"share": k}  -> the k-th object of the case's pool (built once: object identity shared)
 
 `build` makes the real objects (the repo's own dataclasses, Action, enums, re.Pattern, ComparisonExpression);
@@ -18,8 +18,7 @@ from dataclasses import fields, is_dataclass
 from datetime import datetime
 from enum import Enum
 
-REGEXES = ["a+", "^b", r"\d+"]
-_RX = [re.compile(p) for p in REGEXES]
+REGEXES = [["a+", 32], ["^b", 34], [r"\d+", 32], ["x.y", 48]]  # flags as re.compile(...).flags reports them
 
 
 def dyadic(x):
@@ -47,7 +46,7 @@ def build_key(k):
         return int(k["i"])
     if "s" in k:
         return k["s"]
-    return (1, 2)
+    return tuple(build_key(a) for a in k["T"])
 
 
 def build(j, pool=None):
@@ -97,7 +96,7 @@ def build(j, pool=None):
     if "p" in j:
         return functools.partial(print, "x")
     if "r" in j:
-        return _RX[j["r"]]
+        return re.compile(j["r"][0], j["r"][1])
     if "c" in j:
         return ev._less_than_operator(3)
     if "o" in j:
@@ -112,7 +111,9 @@ def observe_key(k):
         return {"i": k}
     if isinstance(k, str):
         return {"s": k}
-    return {"T": 1}
+    if isinstance(k, tuple) and all(a is None or isinstance(a, (bool, int, str)) for a in k):
+        return {"T": [observe_key(a) for a in k]}
+    return {"T": [{"s": "<unmodelled key " + repr(k)[:40] + ">"}]}
 
 
 def observe(o, budget=None):
@@ -153,7 +154,7 @@ def observe(o, budget=None):
     if isinstance(o, set):
         return {"S": [observe(x, budget) for x in o]}
     if isinstance(o, re.Pattern):
-        return {"r": _RX.index(o) if o in _RX else 0}
+        return {"r": [o.pattern if isinstance(o.pattern, str) else repr(o.pattern), o.flags]}
     if isinstance(o, ev.ComparisonExpression):
         return {"c": 1}
     return {"o": type(o).__name__}
@@ -188,7 +189,7 @@ def plain_json_to_model(x):
     return x
 
 
-REGISTERED = (dict, datetime, Enum, deque, tuple, set)
+REGISTERED = (dict, datetime, Enum, deque, tuple, set, re.Pattern)
 
 
 def sharing_signature(o):
@@ -214,7 +215,10 @@ def sharing_signature(o):
             out.append(seen[id(x)])
             return
         if isinstance(x, dict):
-            for y in x.values():
+            strk = all(isinstance(k, str) for k in x)
+            for k, y in x.items():
+                if not strk:
+                    walk(k)
                 walk(y)
         elif is_dataclass(x):
             for f in x.__dataclass_fields__.keys():
@@ -280,10 +284,13 @@ def to_lab(o):
             return 0
         n = ids.setdefault(id(x), len(ids))
         if isinstance(x, dict):
-            kids = [walk(y) for y in x.values()]
+            if all(isinstance(k, str) for k in x):
+                kids = [walk(y) for y in x.values()]
+            else:  # item list: key and value are both passed through encode_to_dict
+                kids = [walk(z) for k, y in x.items() for z in (k, y)]
         elif is_dataclass(x):
             kids = [walk(getattr(x, f)) for f in x.__dataclass_fields__.keys()]
-        elif isinstance(x, (colang_ast.SpecType, flows.Action, datetime, Enum)):
+        elif isinstance(x, (colang_ast.SpecType, flows.Action, datetime, Enum, re.Pattern)):
             kids = []
         elif isinstance(x, (deque, tuple, set)):
             kids = [walk(y) for y in x]
@@ -304,8 +311,10 @@ def enc_skeleton(d, ids):
     t = d.get("__type")
     if t == "ref":
         return {"ref": ids.get(d["__id"], -1)}
-    if t in ("Action", "datetime", "enum", "SpecType"):
+    if t in ("Action", "datetime", "enum", "SpecType", "regex"):
         kids = []
+    elif t == "dict" and "items" in d:
+        kids = [enc_skeleton(z, ids) for kv in d["items"] for z in kv]
     elif t in ("tuple", "set", "deque"):
         kids = [enc_skeleton(x, ids) for x in d["value"]]
     else:
